@@ -123,7 +123,8 @@ package core
 //@ func (*socket).NewDialer
 //@   loop 1 invariant !inh
 //@   at call:NewDialer#1 set inh:bool = false
-//@   before call:SetOption#3 assert arg0 == mangos.OptionMaxRecvSize && arg1 == iface(s.maxRxSize)
+//@   before call:Unlock#1 assert held(s.Mutex) && maxRxSize == s.maxRxSize && d.reconnMinTime == s.reconnMinTime && d.reconnMaxTime == s.reconnMaxTime && d.asynch == s.dialAsynch && d.s == s && d.d == td
+//@   before call:SetOption#3 assert arg0 == mangos.OptionMaxRecvSize && arg1 == iface(maxRxSize)
 //@   at call:SetOption#3 set inh:bool = true
 //@   ensures isnil(result1) && !has(options, mangos.OptionMaxRecvSize) ==> inh
 //@   ensures isnil(result1) ==> !isnil(result0) && cast("*dialer", result0).s == s && cast("*dialer", result0).addr == addr
@@ -131,7 +132,8 @@ package core
 //@ func (*socket).NewListener
 //@   loop 1 invariant !inh
 //@   at call:NewListener#1 set inh:bool = false
-//@   before call:SetOption#2 assert arg0 == mangos.OptionMaxRecvSize && arg1 == iface(s.maxRxSize)
+//@   before call:Unlock#1 assert held(s.Mutex) && maxRxSize == s.maxRxSize
+//@   before call:SetOption#2 assert arg0 == mangos.OptionMaxRecvSize && arg1 == iface(maxRxSize)
 //@   at call:SetOption#2 set inh:bool = true
 //@   ensures isnil(result1) && !has(options, mangos.OptionMaxRecvSize) ==> inh
 //@   ensures isnil(result1) ==> !isnil(result0) && cast("*listener", result0).s == s && cast("*listener", result0).addr == addr
